@@ -17,5 +17,5 @@ driver.coq_project()
 PY
 (cd coq && timeout 3000 make -j16) || echo "coq build failed (checks will report it)"
 # compile every harness package (no tests run) so that quick checks start warm
-(cd harness && timeout 3000 $GO test -tags verif -count=1 -run '^$' ./... 2>&1 | tail -30) || true
+(cd harness && timeout 3000 $GO test -tags verif -trimpath -count=1 -run '^$' ./... 2>&1 | tail -30) || true
 exit 0
